@@ -413,6 +413,7 @@ func Run(tier string, seed uint64, modelPath, repo string, out *res.Result) erro
 		"root element direction ltr/rtl (1/3 rtl) and break-before left/right/recto/verso (1/4), " +
 		"declarations margin-top/bottom/left (px, %, auto, !important), size, height); non-trivial = >= 2 pages and >= 2 @page rules; distinct by full HTML text"
 	render.Quiet()
+	c02.InstallGuard() // per-document page limit: a runaway page loop is stopped and reported
 	fonts, err := render.NewFonts(repo)
 	if err != nil {
 		return err
@@ -461,9 +462,17 @@ func Run(tier string, seed uint64, modelPath, repo string, out *res.Result) erro
 
 func oneCase(m *mp.Model, doc *c02.ClassF, rs ruleSet, seed uint64, fonts text.FontConfiguration, out *res.Result) error {
 	var pages []*bo.PageBox
+	c02.LimitPages(8*(2*doc.NTok+2) + 8)
+	defer c02.LimitPages(0)
 	o := render.Guard(20*time.Second, func() {
 		pages, _, _ = render.LayoutOnly(doc.HTML, fonts, render.Opts{})
 	})
+	if c02.IsPageLoop(o.Panic) {
+		out.Count(doc.HTML, true)
+		out.Add(res.Finding{Kind: "judge", Op: "judge:paginate_progress", Input: doc.HTML, Key: "page-loop", Seed: seed,
+			Reason: fmt.Sprintf("the page loop does not end: %s for a class-F document of %d lines (theorem paginateWith_total of WR.Props.C12: the model ends within %d pages)", o.Panic, doc.NTok, 2*doc.NTok+1)})
+		return nil
+	}
 	var retried []*bo.PageBox
 	useRetry := false
 	if o.Timeout {
